@@ -139,4 +139,61 @@ def lockGapless (s : SubSt) : Prop :=
   | some k => s.registered = true → s.live = List.range' k (s.pushed - k)
   | none => True
 
+/-- invariant of the locked subscription: the fan-out is exactly the blocks pushed since the snapshot -/
+theorem lock_inv (sched : List SAct) (s : SubSt)
+    (h : (s.snap = none ∧ s.registered = false ∧ s.live = []) ∨
+         (∃ k, s.snap = some k ∧ s.registered = true ∧ k ≤ s.pushed ∧ s.live = List.range' k (s.pushed - k))) :
+    (let t := lockRun true s sched
+     (t.snap = none ∧ t.registered = false ∧ t.live = []) ∨
+     (∃ k, t.snap = some k ∧ t.registered = true ∧ k ≤ t.pushed ∧ t.live = List.range' k (t.pushed - k))) := by
+  induction sched generalizing s with
+  | nil => exact h
+  | cons a r ih =>
+    apply ih
+    rcases h with ⟨h1, h2, h3⟩ | ⟨k, h1, h2, h3, h4⟩
+    · cases a with
+      | push => left; simp [lockStep, h1, h2, h3]
+      | snapshot => left; simp [lockStep, h1, h2, h3]
+      | register => left; simp [lockStep, h1, h2, h3]
+      | subscribeLocked =>
+        right
+        refine ⟨s.pushed, ?_⟩
+        simp [lockStep, h1, h3]
+    · right
+      cases a with
+      | push =>
+        refine ⟨k, ?_⟩
+        simp only [lockStep, h1, h2, if_true, true_and]
+        refine ⟨by omega, ?_⟩
+        rw [h4]
+        have : s.pushed + 1 - k = (s.pushed - k) + 1 := by omega
+        rw [this, List.range'_concat]
+        congr 2
+        omega
+      | snapshot => exact ⟨k, by simp [lockStep, h1, h2, h3, h4]⟩
+      | register => exact ⟨k, by simp [lockStep, h1, h2, h3, h4]⟩
+      | subscribeLocked => exact ⟨k, by simp [lockStep, h1, h2, h3, h4]⟩
+
+/-- **no block is lost between the burst and the fan-out**, for every interleaving of pushes with a subscription
+    taken under the write lock -/
+theorem locked_gapless (sched : List SAct) : lockGapless (lockRun true lockInit sched) := by
+  have h := lock_inv sched lockInit (Or.inl ⟨rfl, rfl, rfl⟩)
+  simp only at h
+  unfold lockGapless
+  rcases h with ⟨h1, _, _⟩ | ⟨k, h1, _, _, h4⟩
+  · rw [h1]; trivial
+  · rw [h1]; intro _; exact h4
+
+/-- kernel-checked counter-schedule: with the burst taken before the lock (snapshot, push, register, push), the
+    block pushed in between is in neither the burst nor the fan-out -/
+theorem unlocked_loses :
+    ¬ lockGapless (lockRun false lockInit [.snapshot, .push, .register, .push]) := by
+  have e : lockRun false lockInit [.snapshot, .push, .register, .push] = ⟨2, some 0, true, [1]⟩ := by decide
+  rw [e]
+  unfold lockGapless
+  simp only
+  intro h
+  exact absurd (h trivial) (by decide)
+
+
 end BstreamVerif.Conc.Locks
